@@ -10,6 +10,7 @@ import AdaVerif.Model.HostSetter
 import AdaVerif.Model.AggHostSetter
 import AdaVerif.Model.ParseSpecial
 import AdaVerif.Model.ParseAgg
+import AdaVerif.Model.ParseValid
 import Driver.UrlCmd
 /- agg.edit <state> <editor> <hexarg> : apply one Model editor to a buffer-with-offsets state.
    state = buf,pe,ue,hs,he,port,ps,ss,hh,opq   (hex buffer, decimal offsets, '-' = omitted) -/
@@ -268,6 +269,32 @@ def cmdParseAggBase (a : List String) : String :=
         match (if getHostname g == getHostname base then none else findMarker idna (getHostname g)) with
         | some d => s!"need-idna {hexs d}"
         | none => dumpAgg g
+  | _ => "bad-op"
+
+/-- a base object of the given `type` / `has_opaque_path`, to find out which domain a validation-only run asks IDNA about -/
+def fakeBase (bty : Nat) (bopq : Bool) : Model.UrlRec.Rec :=
+  let scheme : Bytes := match bty with
+    | 0 => Spec.bHttp | 2 => Spec.bHttps | 3 => Spec.bWs | 4 => [0x66, 0x74, 0x70] | 5 => Spec.bWss | 6 => Spec.bFile | _ => [0x66, 0x6F, 0x6F]
+  if bopq then Model.UrlRec.Rec.mk scheme false [] [] none none [0x78] none none true
+  else Model.UrlRec.Rec.mk scheme (bty != 1) [] [] (some (if bty == 6 then [] else [0x68])) none [0x2F] none none false
+
+/-- parse.valid <hexinput> <base type|-> <base opaque 0|1> [hints] : the model of parse_url_impl<url_aggregator, false>(input, base):
+    "<valid> <type> <has_opaque_path>" -/
+def cmdParseValid (a : List String) : String :=
+  match a with
+  | input :: bty :: bopq :: hintArgs =>
+    let idna := mkIdna (parseHints hintArgs)
+    let base : Option (Nat × Bool) := (optNat bty).map (fun t => (t, bopq == "1"))
+    let probe : Option Bytes := match base with
+      | none => (match Model.ParseSpecial.machine idna (unhexs input) with
+          | .ok r => findMarker idna (r.host.getD []) | .invalid => none)
+      | some (t, o) => (match Model.ParseSpecial.machineB idna (fakeBase t o) (unhexs input) with
+          | .ok r => if r.host == (fakeBase t o).host then none else findMarker idna (r.host.getD []) | .invalid => none)
+    match probe with
+    | some d => s!"need-idna {hexs d}"
+    | none =>
+      let v := Model.ParseValid.machineV idna base (unhexs input)
+      s!"{if v.valid then 1 else 0} {v.ty} {if v.opq then 1 else 0}"
   | _ => "bad-op"
 
 end Driver
